@@ -34,3 +34,9 @@ Definition spec_lookup_str {X} (k : kind) (l : list (option X)) (idof : X -> opt
       else plain
   | _ => plain
   end.
+
+Definition spec_lookup_plain {X} (k : kind) (l : list (option X)) (idof : X -> option nat) (s : list N) : list nat :=
+  match plain_token k s with
+  | Some tok => s_resolve l idof (N.to_nat tok)
+  | None => []
+  end.
